@@ -99,7 +99,7 @@ m = {
         }
     ],
     "checks": checks,
-    "notes": "All checks are static (they parse /repo and never import or execute it). Exit 0 holds / 1 VIOLATION / 2 ANALYSIS-ERROR (checker cannot see the property any more; never printed as VIOLATION). Genuine defects repaired by fix: commits and the known findings K1, K2 are listed in /verif/known_findings.json.",
+    "notes": "All checks are static (they parse /repo and never import or execute it). Exit 0 holds / 1 VIOLATION / 2 ANALYSIS-ERROR (checker cannot see the property any more; never printed as VIOLATION). Genuine defects repaired by fix: commits and the known findings K1-K4 are listed in /verif/known_findings.json.",
     "not_applicable": na,
 }
 json.dump(m, open("/verif/MANIFEST.json", "w"), indent=1)
